@@ -9,7 +9,8 @@ import z3
 from .values import *
 from .symexec import SymRaise, Unsupported, VDictItems, VDictKeys
 
-TRUSTED = ["EdgeView.members(e) / NodeView.memberships(n) return a copy of the table entry (IDNotFound if absent); view.items() iterates ids with their attribute records"]
+TRUSTED = ["IDView.from_view(view, bunch) yields the sub-view with exactly the ids of bunch (IDNotFound for a foreign id); view.filterby('degree'|'size', k) yields the ids whose degree / size is k (stat dispatch by name assumed)",
+           "EdgeView.members(e) / NodeView.memberships(n) return a copy of the table entry (IDNotFound if absent); view.items() iterates ids with their attribute records"]
 
 
 def view_method(ex, view, name, args, kw, node):
@@ -66,6 +67,44 @@ def view_method(ex, view, name, args, kw, node):
         sel_ = c.setof(lambda e: z3.And(z3.Select(de.keys, e), c.card(z3.Select(de.fields["v"], e)) == k))
         ex.assume(z3.And(c.iterable(t), z3.Not(c.one_shot(t)), c.elems_hashable(t), c.content(t) == sel_, t != c.NONE,
                          z3.Not(c.intlike(t)), z3.Not(c.is_str(t)), z3.Not(c.is_dict(t))))
+        return VVal(t)
+    if name == "from_view":
+        # IDView.from_view(view, bunch): the sub-view holding exactly the ids of `bunch` (IDNotFound when one of them is not an id
+        # of the network).  ASSUMED (listed in TRUSTED): the result is represented as an iterable value with that content.
+        bunch = kw.get("bunch") if "bunch" in kw else (args[1] if len(args) > 1 else None)
+        if bunch is None or not args or args[0] is not view and not (isinstance(args[0], type(view)) and args[0].net is view.net and args[0].which == view.which):
+            raise Unsupported("from_view of another view / without a bunch")
+        S, distinct, kind, srcobj = ex.iter_source(bunch, node)
+        d = net.f["_node" if view.which == "nodes" else "_edge"]
+        if not ex.branch(c.subset(S, d.keys)):
+            raise SymRaise("IDNotFound", w)
+        t = c.fresh_id("subview")
+        ex.assume(z3.And(c.iterable(t), z3.Not(c.one_shot(t)), c.elems_hashable(t), c.content(t) == S, t != c.NONE,
+                         z3.Not(c.intlike(t)), z3.Not(c.is_str(t)), z3.Not(c.is_dict(t))))
+        return VVal(t)
+    if name == "filterby" and len(args) == 2 and not kw and isinstance(args[0], VStr) and args[0].s in ("degree", "size"):
+        # view.filterby("degree" | "size", k) with the default mode "eq": the ids whose degree / size equals k.  ASSUMED (TRUSTED): the
+        # statistic dispatched by name is the one defined in xgi/stats (whose definition is proved under C06) and filterby compares with ==
+        kt = ex.tint(args[1])
+        if (view.which == "nodes") != (args[0].s == "degree"):
+            raise Unsupported("filterby(%s) on the %s view" % (args[0].s, view.which))
+        d = net.f["_node" if view.which == "nodes" else "_edge"]
+        if net.kind == "DH":
+            sz = lambda x: c.card(c.union(z3.Select(d.fields["in"], x), z3.Select(d.fields["out"], x)))
+        else:
+            sz = lambda x: c.card(z3.Select(d.fields["v"], x))
+        t = c.fresh_id("filtered")
+        kz = z3.simplify(kt)
+        if z3.is_int_value(kz) and kz.as_long() == 0:
+            # size 0 stated as emptiness (card s == 0 <=> s is empty; saves the solver the detour through the cardinality axioms)
+            if net.kind == "DH":
+                hit = lambda x: z3.And(z3.Select(d.fields["in"], x) == c.EMPTY, z3.Select(d.fields["out"], x) == c.EMPTY)
+            else:
+                hit = lambda x: z3.Select(d.fields["v"], x) == c.EMPTY
+        else:
+            hit = lambda x: sz(x) == kt
+        ex.assume(z3.And(c.iterable(t), z3.Not(c.one_shot(t)), c.elems_hashable(t), c.content(t) == c.setof(lambda x: z3.And(z3.Select(d.keys, x), hit(x))),
+                         t != c.NONE, z3.Not(c.intlike(t)), z3.Not(c.is_str(t)), z3.Not(c.is_dict(t))))
         return VVal(t)
     if name == "items":
         return VDictItems(net.f["_node_attr" if view.which == "nodes" else "_edge_attr"])
